@@ -211,6 +211,10 @@ def run(repo: Repo, rep: Report, tier: str) -> None:
     except Undecided as ex:
         rep.undecide("derive_scope", str(ex))
     try:
+        _timezone_pattern(repo, rep)
+    except Undecided as ex:
+        rep.undecide("timezone", str(ex))
+    try:
         _owner_option(repo, rep)
     except Undecided as ex:
         rep.undecide("owner_option", str(ex))
@@ -240,6 +244,14 @@ def _dataclass_rules(repo: Repo, rep: Report) -> None:
             order["required"] = i
         if t.startswith("properties[f_name] ="):
             order["properties"] = i
+    # the alias renaming must apply to every field: a top-level statement of the loop body, not one nested in the branch that
+    # generates the schema (fields whose schema is overridden through Config.json_schema["properties"] are renamed too)
+    alias_top = [st for st in loop.body if isinstance(st, ast.If) and "f_instance.alias" in ast.unparse(st.test) and any("f_name" in ast.unparse(x) for x in st.body)] + \
+                [st for st in loop.body if isinstance(st, ast.Assign) and "f_instance.alias" in ast.unparse(st.value) and ast.unparse(st.targets[0]) == "f_name"]
+    alias_any = [n for n in ast.walk(loop) if isinstance(n, ast.Assign) and ast.unparse(n.targets[0]) == "f_name" and "alias" in ast.unparse(n.value)]
+    if alias_any and not alias_top:
+        rep.violation("R06.2", fi.key, "the alias renaming is nested in a branch of the field loop", "a field whose schema comes from Config.json_schema['properties'] keeps its Python name "
+                      "in `properties` / `required` while the serializer emits its alias", loc=fi.loc)
     if set(order) == {"alias", "required", "properties"} and order["alias"] < order["required"] and order["alias"] < order["properties"]:
         rep.ok("R06.2", "required.append(name) iff not has_default, after the alias renaming that also keys `properties`", {"order": order})
     else:
@@ -401,6 +413,35 @@ def _owner_option(repo: Repo, rep: Report) -> None:
                       "an option set through Config.dialect (namedtuple_as_dict) changes the serialized shape and must change the schema with it", loc=fi.loc)
 
 
+def _timezone_pattern(repo: Repo, rep: Report) -> None:
+    """R06.13: the `pattern` of the timezone schema accepts every string the serializer can emit for a datetime.timezone:
+    tzname(None) of a fixed-offset zone is 'UTC' or 'UTC[+-]HH:MM' with HH in 00..23 and MM in 00..59 (offsets are
+    strictly within one day).  The regex constant is read from the source and matched against all 2 * 24 * 60 + 1 names."""
+    import re as _re
+
+    mi = repo.module(M_SCHEMA)
+    pat = None
+    for st in mi.tree.body:
+        if isinstance(st, ast.Assign) and isinstance(st.targets[0], ast.Name) and st.targets[0].id == "UTC_OFFSET_PATTERN" and isinstance(st.value, ast.Constant):
+            pat = st.value.value
+    fi = repo.func(M_SCHEMA, "on_timezone")
+    if pat is None or "UTC_OFFSET_PATTERN" not in ast.unparse(fi.node):
+        rep.undecide("R06.13", "timezone pattern constant not found / not used by on_timezone")
+        return
+    try:
+        rx = _re.compile(pat)
+    except _re.error as ex:
+        rep.violation("R06.13", f"{M_SCHEMA}::on_timezone", "timezone pattern does not compile", str(ex), loc=fi.loc)
+        return
+    names = ["UTC"] + [f"UTC{sg}{h:02d}:{m:02d}" for sg in "+-" for h in range(24) for m in range(60) if (h, m) != (0, 0)]
+    rejected = [n for n in names if rx.search(n) is None]
+    if rejected:
+        rep.violation("R06.13", f"{M_SCHEMA}::on_timezone", f"the timezone pattern rejects {len(rejected)} of {len(names)} names the serializer emits (e.g. {rejected[0]}, {rejected[-1]})",
+                      "timezone(timedelta(hours=15)) serializes to 'UTC+15:00', which the schema's pattern does not accept", loc=fi.loc, pattern=pat)
+    else:
+        rep.ok("R06.13", f"timezone pattern {pat!r} accepts all {len(names)} serialized zone names", None)
+
+
 def _enum_literal(repo: Repo, rep: Report) -> None:
     lit = repo.func(M_SCHEMA, "on_literal")
     loop = next((n for n in walk_no_nested(lit.node) if isinstance(n, ast.For)), None)
@@ -504,3 +545,6 @@ def _run_decision(fn: ast.FunctionDef, opt_var: str, opt: str, env: Dict[str, An
         return True if run(fn.body) else None
     except KeyError:
         return None
+_ADD15 = ' R06.2 also requires the alias renaming to apply to every field (not only to fields whose schema is generated). R06.13: the timezone pattern accepts every zone name the serializer emits (all 2879 enumerated).'
+EXPLANATION += _ADD15
+LEVEL_TEXT += _ADD15
